@@ -67,7 +67,7 @@ ASSUMPTIONS = [
     "Python str slicing on the parent string is the reference for 'the same residues'; a feature's slice joins its spans in plus-strand order and is reverse-complemented as a whole when the feature is on '-'",
     "a feature whose extent overlaps a window but none of whose spans does may or may not be returned (not demanded either way); if returned it must slice to the empty string without raising",
     "on a reverse-complemented view the spans given to add_feature may be read as view indices or as plus-strand coordinates from the view's plus-strand start; the reading shown by the returned feature is the one every later query is held to",
-    "not checked because dropped by design: strided views, multi-span (or partial) slice-by-feature results, new-type SequenceCollection.rc(); Alignment.deepcopy(sliced=True) is documented to drop annotations: an empty result is accepted, a returned feature must still be right",
+    "not checked because dropped by design: strided views, multi-span (or partial) slice-by-feature results, new-type SequenceCollection.rc(); deepcopy(sliced=True|False) of an alignment or collection must keep every feature of its source denoting the same residues (as it does on this tree)",
     "windows lie inside the view (0 <= start < stop <= len); empty or inverted windows and windows beyond the view are not queried",
 ]
 TIMEOUT = {"quick": 3600, "thorough": 28000}
@@ -462,6 +462,9 @@ def gen_aln_scn(rng, intro, deep=False):
     root = (0, A, False)
     ops = ("slice", "slice", "slice", "rc", "rc", "copy", "deepcopy")
     hist, views = gen_history(rng, root, rng.choice([0, 1, 1, 2, 2, 3]) if not deep else rng.choice([1, 2, 3, 4, 5]), ops)
+    if rng.random() < 0.2:
+        # the order matters: a sliced deep copy taken AFTER a reverse complement
+        hist += [["rc"], ["deepcopy", True]]
     lat_cols = lattice_of(views, 0, A)
     seqfeats, alnfeats = [], []
     k = 0
@@ -547,30 +550,34 @@ def aln_colfeats(rows, seqfeats, alnfeats):
 
 
 def gen_coll_scn(rng, impl):
-    n = rng.randint(1, 3)
+    n = rng.choice([1, 2, 2, 3, 3])
     seqs = {f"s{i}": "".join(rng.choice("ACGT") for _ in range(rng.randint(4, 20))) for i in range(n)}
     feats = []
     k = 0
     for name, s in seqs.items():
-        for _ in range(rng.choice([0, 1, 2])):
+        # several members carry features in the shared db (and now and then one carries none)
+        for _ in range(rng.choice([0, 1, 1, 2])):
             spans = gen_spans(rng, 0, len(s), [0, 1, len(s) - 1, len(s)])
             if spans:
                 feats.append({"name": f"c{k}", "biotype": rng.choice(BIOTYPES), "row": name, "spans": spans, "strand": rng.choice("+-")})
                 k += 1
-    if not feats:
-        feats.append({"name": "c0", "biotype": "gene", "row": "s0", "spans": [[0, 2]], "strand": "-"})
+    for name, s in list(seqs.items())[:2]:
+        if not any(f["row"] == name for f in feats) and (name == "s0" or rng.random() < 0.7):
+            feats.append({"name": f"c{k}", "biotype": "gene", "row": name, "spans": [[0, 2]], "strand": rng.choice("+-")})
+            k += 1
     ops = []
-    for _ in range(rng.randint(0, 2)):
-        op = rng.choice(["rc", "take", "copy"] if impl == "old" else ["take", "copy"])
+    for _ in range(rng.randint(0, 3)):
+        op = rng.choice(["rc", "rc", "take", "copy", "deepcopy", "deepcopy"] if impl == "old" else ["take", "copy"])
         if op == "take":
             keep = sorted(rng.sample(list(seqs), rng.randint(1, n)))
             ops.append(["take", keep])
+        elif op == "deepcopy":
+            ops.append(["deepcopy", rng.random() < 0.7])
         else:
             ops.append([op])
+    if impl == "old" and rng.random() < 0.2:
+        ops += [["rc"], ["deepcopy", True]]
     name = rng.choice(list(seqs))
-    L = len(seqs[name])
-    a = rng.randint(0, L - 1)
-    b = rng.randint(a + 1, L)
     intro = rng.choice(["add", "db", "members"])
     members = {}
     if intro == "members":
@@ -580,6 +587,11 @@ def gen_coll_scn(rng, impl):
                 h, _ = gen_history(rng, (0, len(s), False), rng.randint(1, 2), ("slice", "slice", "rc") if impl == "old" else ("slice",))
                 members[nm] = h
         ops = [o for o in ops if o[0] != "rc"]
+    # the sequence handed out by the collection then has a history of its own (incl. copy(), default sliced=True)
+    mv = (0, len(seqs[name]), False)
+    for st in members.get(name, []):
+        mv = view_apply(mv, st)
+    seq_hist, _ = gen_history(rng, mv, rng.randint(1, 3), ("slice", "rc", "copy", "copy", "deepcopy"))
     return {
         "level": "coll",
         "impl": impl,
@@ -588,7 +600,7 @@ def gen_coll_scn(rng, impl):
         "members": members,
         "features": feats,
         "history": ops,
-        "get_seq": [name, a, b, rng.random() < 0.4],
+        "get_seq": [name, seq_hist],
     }
 
 
@@ -1077,6 +1089,7 @@ def run_seq_scn(res, scn):
             return out + list(extra)
 
         cur, view = (target, v0) if scn["cont"] == "view" else (seq, root)
+        degap_alts = []
         windows = scn["windows"]
         observe_seq(ctx, cur, P, view, model, hyps_for(view), windows[0])
         if ctx.failed:
@@ -1115,7 +1128,21 @@ def run_seq_scn(res, scn):
                 ctx.witness(f"C04/history-{ctx.op}/view-string/{impl}", got=str(nxt), expected=expv, view=nview)
                 return
             cur, view = nxt, nview
-            extra = [fresh_root(P, view, model, D5, off=off, gapped=gapped_degap)] if st[0] == "degap" else []
+            # the degap defect (a brand-new root that keeps the db) can stay invisible at the degap step itself, e.g.
+            # on a palindromic view; its hypothesis is therefore carried along the rest of the history
+            carried = []
+            for h in degap_alts:
+                try:
+                    h = dict(h, view=view_apply(h["view"], st, h["model"]))
+                except Exception:  # noqa: BLE001
+                    continue  # the step does not apply in that world (e.g. slice-by-feature of an absent feature)
+                if st[0] == "degap":
+                    h = fresh_root(h["parent"], h["view"], h["model"], D5)
+                carried.append(h)
+            degap_alts = carried
+            if st[0] == "degap":
+                degap_alts.append(fresh_root(P, view, model, D5, off=off, gapped=gapped_degap))
+            extra = list(degap_alts)
             if gapped_degap and not expv:
                 # G: the slice held only gap characters, so nothing is left to query (empty windows are not queried)
                 res.count("gapped-degap-left-nothing")
@@ -1598,8 +1625,6 @@ def run_aln_scn(res, scn):
                 ctx.witness(f"C04/aln-history-{ctx.op}/view-rows", got=gd, expected=expd, view=nview)
                 return
             cur, view = nxt, nview
-            if ctx.op == "deepcopy-sliced":
-                lenient = True
             observe_aln(ctx, cur, rows, view, scn["seqfeats"], scn["alnfeats"], lenient_empty=lenient, check_default=not projected)
             if ctx.failed:
                 return
@@ -1849,8 +1874,6 @@ def run_coll_scn(res, scn):
                 ctx.witness(f"C04/coll-member/view-string/{impl}", got=sv, expected=expv, row=r, view=view)
                 return
             model = models(r)
-            if not model:
-                continue
             hyps = twice(s, model, view) if new_type else []
             if from_views and new_type:
                 hyps.append(fresh_root(s, view, model, D11_NEW, no_filter=True))
@@ -1889,6 +1912,10 @@ def run_coll_scn(res, scn):
                 present = set(keep)
             elif st[0] == "copy":
                 cur = cur.copy() if impl == "old" else _copy.deepcopy(cur)
+            elif st[0] == "deepcopy":
+                ctx.op = "deepcopy-sliced" if st[1] else "deepcopy-unsliced"
+                OP[0] = ctx.op
+                cur = cur.deepcopy(sliced=bool(st[1]))
         except Exception as e:  # noqa: BLE001
             res.evals += 1
             ctx.witness(exc_mechanism(f"C04/coll-history-{st[0]}", e), error=repr(e)[:300])
@@ -1896,45 +1923,51 @@ def run_coll_scn(res, scn):
         observe()
         if ctx.failed:
             return
-    # get_seq + slice: sequence-level view obtained from the collection
-    r, a, b, do_rc = scn["get_seq"]
+    # get_seq, then a history on the sequence the collection handed out
+    r, hist = scn["get_seq"]
     if r not in present:
+        return
+    s = seqs[r]
+    model = models(r)  # only this sequence's features: anything else returned is an extra
+    view = views[r]
+    if view[1] - view[0] < 1:
         return
     ctx.op = "get_seq"
     OP[0] = ctx.op
     ctx.depth += 1
-    s = seqs[r]
-    model = models(r)
-    view = views[r]
-    n = view[1] - view[0]
-    if not model or n < 1:
-        return
-    a, b = min(a, n - 1), min(b, n)
-    if a >= b:
-        return
     try:
         obj = cur.get_seq(r)
-        obj = obj[a:b]
-        view = view_apply(view, ["slice", a, b])
-        if do_rc:
-            obj = obj.rc()
-            view = view_apply(view, ["rc"])
     except Exception as e:  # noqa: BLE001
         res.evals += 1
-        ctx.witness(exc_mechanism("C04/coll-get_seq-slice", e), error=repr(e)[:300])
+        ctx.witness(exc_mechanism("C04/coll-get_seq", e), error=repr(e)[:300], row=r)
         return
-    expv = s[view[0] : view[1]]
-    if view[2]:
-        expv = rc(expv)
-    res.evals += 1
-    if str(obj) != expv:
-        ctx.witness(f"C04/coll-get_seq/view-string/{impl}", got=str(obj), expected=expv, view=view)
-        return
-    for ap in (True, False):
-        for win in [None] + mixed_windows(view[1] - view[0]):
-            query_seq(ctx, obj, s, view, model, None, win, ap, level="collseq")
-            if ctx.failed:
+    for st in [None] + list(hist):
+        if st is not None:
+            if st[0] == "slice" and st[2] > view[1] - view[0]:
+                break
+            ctx.op = "get_seq+" + opname(st)
+            OP[0] = ctx.op
+            ctx.depth += 1
+            res.count("collseq-op:" + opname(st))
+            try:
+                obj = seq_step(obj, st)
+            except Exception as e:  # noqa: BLE001
+                res.evals += 1
+                ctx.witness(exc_mechanism(f"C04/coll-get_seq-history-{opname(st)}", e), error=repr(e)[:300], view=view)
                 return
+            view = view_apply(view, st)
+        expv = s[view[0] : view[1]]
+        if view[2]:
+            expv = rc(expv)
+        res.evals += 1
+        if str(obj) != expv:
+            ctx.witness(f"C04/coll-get_seq/view-string/{impl}", got=str(obj), expected=expv, view=view)
+            return
+        for ap in (True, False):
+            for win in [None] + mixed_windows(view[1] - view[0]):
+                query_seq(ctx, obj, s, view, model, None, win, ap, level="collseq")
+                if ctx.failed:
+                    return
 
 
 # ---------------------------------------------------------------------------
@@ -2041,6 +2074,9 @@ REQUIRED = [
     "aln-op:rc",
     "coll:query-old",
     "coll:query-new",
+    "collseq-op:copy",
+    "coll-op:deepcopy",
+    "aln-op:deepcopy-sliced",
 ]
 
 
